@@ -34,6 +34,7 @@ func init() {
 	Registry["C07"] = C07
 	Registry["C04"] = C04
 	Registry["C17"] = C17
+	Registry["C19"] = C19
 }
 
 func init() { Registry["C13"] = C13 }
